@@ -346,3 +346,21 @@ func WordsScript(a, b uint64, k uint) (int, int, uint64, int) {
 	d := Words{n: 7}
 	return c.n, len(c.w) + len(d.w) + d.n, c.w[len(c.w)-1], len(w.w)
 }
+
+// ---- [BitsCode] named results: documentation-style (explicit return) and assigned + bare return ----
+
+func Locate(num uint) (index int, mask uint64) { return int(num >> 6), uint64(1) << (num & 63) }
+
+func NamedSum(s []int, limit int) (total int, clipped bool) {
+	for _, v := range s {
+		if total+v > limit {
+			clipped = true
+			return
+		}
+		total += v
+	}
+	if total < 0 {
+		return 0, true
+	}
+	return
+}
